@@ -251,6 +251,9 @@ def run(ctx):
         for how in ("optimistic", "negotiated"):
             if not res["mismatches"] and not (res.get("extra") or {}).get("first_op_%s_on_%s" % (k, how)):
                 raise MachineryError("vacuity guard: no replayed first operation %s on a %s stream" % (k, how))
+    for k in ("open_args_multi", "open_args_subslice_of_earlier_list", "open_args_prefix_of_earlier_list"):
+        if not res["mismatches"] and not (res.get("extra") or {}).get(k):
+            raise MachineryError("vacuity guard: no replayed open of kind %s (shared preference array)" % k)
     edges_total = sum(r[3] for r in rres)
     if not res["mismatches"] and res["distinct"] < edges_total:
         raise MachineryError("replay executed %d distinct transitions of %d" % (res["distinct"], edges_total))
